@@ -4,13 +4,13 @@ package main
 // (properties C14 and C12).
 //
 //	oracle_table   ((sys (version...) (requirement...)) ...)
-//	    -> ((sys (version...) (parses...) (prerelease...) ((sign...)...) (requirement...) (sat...)) ...)
+//	    -> ((sys (version...) (parses...) (prerelease...) ((clSign...)...) (requirement...) (sat...)) ...)
 //	    the answers of deps.dev/util/semver for exactly the calls match.go makes:
-//	    sys.Parse(v) ok?, parsed.IsPrerelease(), sign(vi.Compare(vj)) (0 when one does not parse),
+//	    sys.Parse(v) ok?, parsed.IsPrerelease(), clSign(vi.Compare(vj)) (0 when one does not parse),
 //	    sys.ParseConstraint(r): ("err") or ("ok" Match(v)...).
 //	client_history (variant table ops) -> (observation...)   variant and table are for the model only
-//	sortv          (table sys versions perm) -> (version...)
-//	matchreq       (table sys requirement versions perm) -> (version...)
+//	sortv          (table sys versions perm cfg) -> (version...)       table and cfg are for the model only
+//	matchreq       (table sys requirement versions perm cfg) -> (version...)
 //
 // A version record is (string vtype attrpairs); printed as (string vtype attrdump).
 
@@ -26,7 +26,7 @@ import (
 	"verifharness/sx"
 )
 
-func sign(c int) int {
+func clSign(c int) int {
 	switch {
 	case c < 0:
 		return -1
@@ -36,7 +36,7 @@ func sign(c int) int {
 	return 0
 }
 
-func oracleTable(arg sx.V) sx.V {
+func clOracleTable(arg sx.V) sx.V {
 	var out []sx.V
 	for _, e := range arg.List() {
 		sysN := e.Nth(0).Int()
@@ -57,7 +57,7 @@ func oracleTable(arg sx.V) sx.V {
 			row := make([]sx.V, len(vs))
 			for j := range vs {
 				if parsed[i] != nil && parsed[j] != nil {
-					row[j] = sx.Int(sign(parsed[i].Compare(parsed[j])))
+					row[j] = sx.Int(clSign(parsed[i].Compare(parsed[j])))
 				} else {
 					row[j] = sx.Int(0)
 				}
@@ -82,7 +82,7 @@ func oracleTable(arg sx.V) sx.V {
 	return sx.L(out...)
 }
 
-func mkVersion(sys, vtype int64, name, ver string, attrs sx.V) resolve.Version {
+func clMkVersion(sys, vtype int64, name, ver string, attrs sx.V) resolve.Version {
 	return resolve.Version{
 		VersionKey: resolve.VersionKey{
 			PackageKey:  resolve.PackageKey{System: resolve.System(sys), Name: name},
@@ -93,7 +93,7 @@ func mkVersion(sys, vtype int64, name, ver string, attrs sx.V) resolve.Version {
 	}
 }
 
-func mkKey(sys, vtype int64, name, ver string) resolve.VersionKey {
+func clMkKey(sys, vtype int64, name, ver string) resolve.VersionKey {
 	return resolve.VersionKey{
 		PackageKey:  resolve.PackageKey{System: resolve.System(sys), Name: name},
 		VersionType: resolve.VersionType(vtype),
@@ -101,19 +101,19 @@ func mkKey(sys, vtype int64, name, ver string) resolve.VersionKey {
 	}
 }
 
-func dumpVersion(v resolve.Version) sx.V {
+func clDumpVersion(v resolve.Version) sx.V {
 	return sx.L(sx.B(v.Version), sx.Int(int(v.VersionType)), dumpVer(v.AttrSet))
 }
 
-func dumpVersions(vs []resolve.Version) sx.V {
+func clDumpVersions(vs []resolve.Version) sx.V {
 	out := make([]sx.V, len(vs))
 	for i, v := range vs {
-		out[i] = dumpVersion(v)
+		out[i] = clDumpVersion(v)
 	}
 	return sx.L(out...)
 }
 
-func dumpReqs(rs []resolve.RequirementVersion) sx.V {
+func clDumpReqs(rs []resolve.RequirementVersion) sx.V {
 	out := make([]sx.V, len(rs))
 	for i := range rs {
 		r := rs[i]
@@ -122,7 +122,7 @@ func dumpReqs(rs []resolve.RequirementVersion) sx.V {
 	return sx.L(out...)
 }
 
-func lookupResult(err error, ok func() sx.V) sx.V {
+func clLookupResult(err error, ok func() sx.V) sx.V {
 	if err != nil {
 		if errors.Is(err, resolve.ErrNotFound) {
 			return sx.L(sx.Sym("notfound"))
@@ -136,7 +136,7 @@ func lookupResult(err error, ok func() sx.V) sx.V {
 //
 //	(1 sys name vtype ver) Version   (2 sys name) Versions
 //	(3 sys name vtype ver) Requirements   (4 sys name vtype req) MatchingVersions
-func clientHistory(arg sx.V) sx.V {
+func clClientHistory(arg sx.V) sx.V {
 	ctx := context.Background()
 	lc := resolve.NewLocalClient()
 	var out []sx.V
@@ -144,27 +144,27 @@ func clientHistory(arg sx.V) sx.V {
 		o := op.List()
 		switch o[0].Int() {
 		case 0:
-			v := mkVersion(o[1].Int(), o[3].Int(), o[2].Str(), o[4].Str(), o[5])
+			v := clMkVersion(o[1].Int(), o[3].Int(), o[2].Str(), o[4].Str(), o[5])
 			var deps []resolve.RequirementVersion
 			for _, d := range o[6].List() {
 				deps = append(deps, resolve.RequirementVersion{
-					VersionKey: mkKey(d.Nth(0).Int(), d.Nth(2).Int(), d.Nth(1).Str(), d.Nth(3).Str()),
+					VersionKey: clMkKey(d.Nth(0).Int(), d.Nth(2).Int(), d.Nth(1).Str(), d.Nth(3).Str()),
 					Type:       buildDep(d.Nth(4)),
 				})
 			}
 			lc.AddVersion(v, deps)
 		case 1:
-			v, err := lc.Version(ctx, mkKey(o[1].Int(), o[3].Int(), o[2].Str(), o[4].Str()))
-			out = append(out, lookupResult(err, func() sx.V { return dumpVersion(v) }))
+			v, err := lc.Version(ctx, clMkKey(o[1].Int(), o[3].Int(), o[2].Str(), o[4].Str()))
+			out = append(out, clLookupResult(err, func() sx.V { return clDumpVersion(v) }))
 		case 2:
 			vs, err := lc.Versions(ctx, resolve.PackageKey{System: resolve.System(o[1].Int()), Name: o[2].Str()})
-			out = append(out, lookupResult(err, func() sx.V { return dumpVersions(vs) }))
+			out = append(out, clLookupResult(err, func() sx.V { return clDumpVersions(vs) }))
 		case 3:
-			rs, err := lc.Requirements(ctx, mkKey(o[1].Int(), o[3].Int(), o[2].Str(), o[4].Str()))
-			out = append(out, lookupResult(err, func() sx.V { return dumpReqs(rs) }))
+			rs, err := lc.Requirements(ctx, clMkKey(o[1].Int(), o[3].Int(), o[2].Str(), o[4].Str()))
+			out = append(out, clLookupResult(err, func() sx.V { return clDumpReqs(rs) }))
 		case 4:
-			vs, err := lc.MatchingVersions(ctx, mkKey(o[1].Int(), o[3].Int(), o[2].Str(), o[4].Str()))
-			out = append(out, lookupResult(err, func() sx.V { return dumpVersions(vs) }))
+			vs, err := lc.MatchingVersions(ctx, clMkKey(o[1].Int(), o[3].Int(), o[2].Str(), o[4].Str()))
+			out = append(out, clLookupResult(err, func() sx.V { return clDumpVersions(vs) }))
 		default:
 			panic(harnessBug{"bad client op"})
 		}
@@ -172,12 +172,12 @@ func clientHistory(arg sx.V) sx.V {
 	return sx.L(out...)
 }
 
-func versionList(sys int64, l sx.V, perm sx.V) []resolve.Version {
+func clVersionList(sys int64, l sx.V, perm sx.V) []resolve.Version {
 	recs := l.List()
 	var vs []resolve.Version
 	for _, p := range perm.List() {
 		r := recs[p.Int()]
-		vs = append(vs, mkVersion(sys, r.Nth(1).Int(), "p", r.Nth(0).Str(), r.Nth(2)))
+		vs = append(vs, clMkVersion(sys, r.Nth(1).Int(), "p", r.Nth(0).Str(), r.Nth(2)))
 	}
 	return vs
 }
@@ -185,17 +185,17 @@ func versionList(sys int64, l sx.V, perm sx.V) []resolve.Version {
 func init() {
 	_ = dep.Dev
 	_ = version.Tags
-	register("oracle_table", oracleTable)
-	register("client_history", clientHistory)
+	register("oracle_table", clOracleTable)
+	register("client_history", clClientHistory)
 	register("sortv", func(a sx.V) sx.V {
-		vs := versionList(a.Nth(1).Int(), a.Nth(2), a.Nth(3))
+		vs := clVersionList(a.Nth(1).Int(), a.Nth(2), a.Nth(3))
 		resolve.SortVersions(vs)
-		return dumpVersions(vs)
+		return clDumpVersions(vs)
 	})
 	register("matchreq", func(a sx.V) sx.V {
 		sys := a.Nth(1).Int()
-		vs := versionList(sys, a.Nth(3), a.Nth(4))
-		ms := resolve.MatchRequirement(mkKey(sys, int64(resolve.Requirement), "p", a.Nth(2).Str()), vs)
-		return dumpVersions(ms)
+		vs := clVersionList(sys, a.Nth(3), a.Nth(4))
+		ms := resolve.MatchRequirement(clMkKey(sys, int64(resolve.Requirement), "p", a.Nth(2).Str()), vs)
+		return clDumpVersions(ms)
 	})
 }
